@@ -18,7 +18,8 @@ RULE = (
     "get_metric result in the model's acceptable set (exact-set at position, else interpolated with extension + warning, "
     "else partition products by level, per block at-position before interpolated), broadcastability, KeyError iff the "
     "model has no candidate; integrate (all axis orders), average (constant field, NaN data), derivative, cumint and "
-    "metric_weighted diff/interp compared with their definition in terms of the metric get_metric returned. Class = "
+    "metric_weighted diff/interp compared with their definition in terms of the metric get_metric returned; the data is "
+    "float64, or int64 / bool / float32 (integrate and average must not depend on the data's type beyond its values). Class = "
     "(verdict kind, deciding level, per-block source at/interp, #axes); non-trivial iff more than one registered "
     "candidate or an interpolation or a product is involved."
 )
@@ -67,7 +68,9 @@ def gen_case(rng, i, tier):
     # a metric may depend on a non-grid dimension too (a time-dependent cell thickness): only when the array has it
     tdep = [nm for _, lst in reg for nm, _ in lst if rng.random() < 0.15] if "time" in extra else []
     return {"layout": layout, "registry": reg, "apos": apos, "query": q, "adims": adims, "extra": extra,
-            "mseed": rng.getrandbits(31), "dseed": rng.getrandbits(31), "periodic": rng.random() < 0.3, "time_dependent": tdep}
+            "mseed": rng.getrandbits(31), "dseed": rng.getrandbits(31), "periodic": rng.random() < 0.3, "time_dependent": tdep,
+            # the data may be integer-typed (counts), a boolean mask or single precision: "for all data values"
+            "dtype": rng.choice(["float64"] * 7 + ["int64", "bool", "float32"])}
 
 
 def build(desc):
@@ -208,6 +211,13 @@ def run_case(ctx, desc):
     q = desc["query"]
     shape = [ds.sizes[d] for d in adims]
     arr = xr.DataArray(gen.quarter_data(desc["dseed"], shape), dims=adims, name="v")
+    dt = desc.get("dtype", "float64")
+    if dt == "int64":
+        arr = (arr * 4).astype("int64")
+    elif dt == "bool":
+        arr = arr > 0
+    elif dt == "float32":
+        arr = arr.astype("float32")  # quarter-integers are exact in single precision; the metrics stay double
     level, cands = M.acceptable(q)
     with warnings.catch_warnings(record=True) as ws:
         warnings.simplefilter("always")
@@ -289,7 +299,7 @@ def run_case(ctx, desc):
     # ---- operations defined through that metric -------------------------------------------
     cm = M.cm
     # integrate: sum of data*metric, any axis order
-    ctx.judged(("integrate", len(q), level), len(q) > 1)
+    ctx.judged(("integrate", len(q), level, dt), len(q) > 1)
     try:
         sdims = [cm[a][desc["apos"][a]] for a in q]
         want = (arr * metric).sum(sdims)
@@ -307,11 +317,17 @@ def run_case(ctx, desc):
     # average: weighted mean over valid data; constant field -> constant
     ctx.judged(("average", len(q), level), True)
     try:
-        const = xr.full_like(arr, 3.25)
+        cval = {"int64": 3, "bool": True}.get(dt, 3.25)
+        const = xr.full_like(arr, cval)
         av = g.average(const, q)
-        if not np.allclose(av.values, 3.25, rtol=1e-14, atol=0):
-            ctx.violation("average-definition", f"average of the constant 3.25 gives {np.ravel(av.values)[:3]}")
-        hole = arr.copy()
+        if not np.allclose(av.values, float(cval), rtol=1e-14, atol=0):
+            ctx.violation("average-definition", f"average of the constant {cval} ({dt}) gives {np.ravel(av.values)[:3]}")
+        if dt in ("int64", "bool"):
+            av = g.average(arr, q)
+            want = (arr * metric).sum(sdims) / (metric * xr.ones_like(arr)).sum(sdims)
+            if set(av.dims) != set(want.dims) or not np.allclose(av.transpose(*want.dims).values, want.values, rtol=1e-13, atol=0):
+                ctx.violation("average-definition", f"average of {dt} data != sum(data*metric)/sum(metric)")
+        hole = arr.astype(float)
         flat = hole.values.reshape(-1)
         flat[:: 3] = np.nan
         av = g.average(hole, q)
@@ -327,6 +343,8 @@ def run_case(ctx, desc):
     a = q[0]
     frm = desc["apos"][a]
     ctx.count("cases_with_ambiguous_partition", 0 if unambiguous else 1)
+    if dt == "bool":
+        return  # differences of boolean masks are not defined (numpy refuses to subtract booleans)
     tos = [p for p in cm[a] if p != "center"] if frm == "center" else ["center"]
     if not tos:
         return
